@@ -110,7 +110,7 @@ def build_time_points(rows):
                 cands.append(seq)
         per_tp.append(cands)
     candidates = [list(c) for c in itertools.product(*per_tp)]
-    return candidates, rows_of
+    return candidates, rows_of, times
 
 
 def _distinct_perms(items):
@@ -132,37 +132,50 @@ def _distinct_perms(items):
     yield from rec([], len(items))
 
 
-def reachable_if_equal_onset_rows_are_permuted(rows, observed_multiset):
-    """would the observed reports be correct bookkeeping if the rows (and delayed groups) of each time point took effect
-    in SOME order other than the file order (markers of one row keep their order)?  Names do not interact, so this is
-    decided name by name (slight over-approximation: the per-name orders are not forced to come from one permutation).
-    Used only to give an order-dependence its own narrow label."""
-    per_key = {}         # key -> time -> list of blocks (tuple of kinds)
+def consistent_with_some_row_order(rows, observed, times, rows_of, max_perms=20000, max_states=3000):
+    """Would the observed reports (row, what, key) be correct bookkeeping if the rows (and Delay-shifted groups) of each
+    time point took effect in SOME order (markers of one row keep their order)?  Names do not interact, so this is
+    decided name by name (slight over-approximation: the per-name orders need not come from one common permutation).
+    Returns True / False / None (None: too many orders to enumerate).  Only used to give an order-dependence its own
+    narrow label instead of blaming the bookkeeping clauses."""
+    import math
+    from collections import Counter
+    tindex = {t: i for i, t in enumerate(times)}
+    per_key = {}         # key -> time point index -> list of blocks (tuple of kinds)
     for r, (t, markers) in enumerate(rows):
         blk = {}
         for (k, n, d) in markers:
             if d is None:
                 blk.setdefault(n.casefold(), []).append(k)
             else:
-                per_key.setdefault(n.casefold(), {}).setdefault(t + d, []).append((k,))
+                per_key.setdefault(n.casefold(), {}).setdefault(tindex[t + d], []).append((k,))
         for key, kinds in blk.items():
-            per_key.setdefault(key, {}).setdefault(t, []).append(tuple(kinds))
+            per_key.setdefault(key, {}).setdefault(tindex[t], []).append(tuple(kinds))
     obs_by_key = {}
-    for what, key in observed_multiset:
-        obs_by_key.setdefault(key, []).append(what)
+    for row, what, key in observed:
+        obs_by_key.setdefault(key, []).append((row, what, key))
     if any(k not in per_key for k in obs_by_key):
         return False
-    for key, by_time in per_key.items():
-        states = {(False, ())}
-        for t in sorted(by_time):
-            blocks = by_time[t]
-            if len(blocks) > 9:
-                return False
-            new_states = set()
+    unknown = False
+    for key, by_tp in per_key.items():
+        obs = obs_by_key.get(key, [])
+        states = {(False, ())}          # (open, ((ti, what), ...))
+        for ti in sorted(by_tp):
+            blocks = by_tp[ti]
+            cnt = Counter(blocks)
+            nperm = math.factorial(len(blocks))
+            for c in cnt.values():
+                nperm //= math.factorial(c)
+            if nperm > max_perms:
+                unknown = True
+                states = None
+                break
+            pool = Counter(w for (row, w, _) in obs if row is not None and (row - 2) in rows_of[ti])
+            outcomes = set()
             for order in _distinct_perms(blocks):
                 seq = [k for b in order for k in b]
-                for opened, reps in states:
-                    o2, r2 = opened, list(reps)
+                for start_open in (False, True):
+                    o2, r2 = start_open, []
                     for i, kind in enumerate(seq):
                         if i > 0:
                             r2.append("dup:" + kind)
@@ -175,11 +188,25 @@ def reachable_if_equal_onset_rows_are_permuted(rows, observed_multiset):
                                 r2.append("offset")
                         elif not o2:
                             r2.append("inset")
-                    new_states.add((o2, tuple(sorted(r2))))
+                    if not (Counter(r2) - pool):        # necessary: these reports were observed at rows of this point
+                        outcomes.add((start_open, o2, tuple(sorted(r2))))
+            new_states = set()
+            for opened, reps in states:
+                for start_open, o2, r2 in outcomes:
+                    if start_open == opened:
+                        new_states.add((o2, reps + tuple((ti, w) for w in r2)))
             states = new_states
-        if tuple(sorted(obs_by_key.get(key, []))) not in {reps for _, reps in states}:
+            if len(states) > max_states:
+                unknown = True
+                states = None
+                break
+            if not states:
+                return False
+        if states is None:
+            continue
+        if not any(match_rows([(ti, w, key) for ti, w in reps], obs, rows_of) for _, reps in states):
             return False
-    return True
+    return None if unknown else True
 
 
 # ----------------------------------------------------------------------------------------------------------------
@@ -283,7 +310,7 @@ def match_rows(expected, observed, rows_of):
 
 
 def check_case(rows, extras=None, use_sidecar=False):
-    """returns list of (clause, observed, expected)"""
+    """returns (list of (clause, observed, expected), delay-tie ambiguity flag)"""
     fails = []
     try:
         issues = validate_rows(rows, extras, use_sidecar)
@@ -292,18 +319,23 @@ def check_case(rows, extras=None, use_sidecar=False):
     observed, other = read_issues(issues)
     if other:
         fails.append(("C10.report.no_other_temporal_issue", other, []))
-    candidates, rows_of = build_time_points(rows)
+    candidates, rows_of, times = build_time_points(rows)
     outcomes = [open_scopes(c)[0] for c in candidates]
     obs_multi = sorted((w, k) for _, w, k in observed)
     exp_multis = [sorted((w, k) for _, w, k in o) for o in outcomes]
     ambiguous = len({json.dumps(e) for e in exp_multis}) > 1
+    # 1. the file-order oracle (a Delay-shifted marker may fall anywhere inside its time point)
+    if any(e == obs_multi and match_rows(o, observed, rows_of) for o, e in zip(outcomes, exp_multis)):
+        return fails, ambiguous
+    exp = exp_multis[0]
+    exp_rows = [(sorted(rows_of[ti]), w, k) for ti, w, k in outcomes[0]]
+    # 2. correct bookkeeping for SOME order of the rows that share an onset, but not for the file order?
+    verdict = consistent_with_some_row_order(rows, observed, times, rows_of)
+    if verdict is not False:
+        fails.append(("C10.equal_onset.rows_take_effect_in_file_order", observed, exp_rows))
+        return fails, ambiguous
+    # 3. say which requirement broke
     if obs_multi not in exp_multis:
-        # say which requirement broke
-        exp = exp_multis[0]
-        if reachable_if_equal_onset_rows_are_permuted(rows, obs_multi):
-            # correct bookkeeping for SOME order of the rows that share an onset, but not for the file order
-            fails.append(("C10.equal_onset.rows_take_effect_in_file_order", obs_multi, exp))
-            return fails, ambiguous
         o_un = [x for x in obs_multi if not x[0].startswith("dup")]
         e_un = [x for x in exp if not x[0].startswith("dup")]
         if o_un != e_un and not ambiguous:
@@ -315,10 +347,7 @@ def check_case(rows, extras=None, use_sidecar=False):
             clause = "C10.delay_tie.some_order"
         fails.append((clause, obs_multi, exp_multis if ambiguous else exp))
     else:
-        ok = any(match_rows(o, observed, rows_of) for o, e in zip(outcomes, exp_multis) if e == obs_multi)
-        if not ok:
-            fails.append(("C10.report.row_within_time_point", observed,
-                          [(sorted(rows_of[ti]), w, k) for ti, w, k in outcomes[0]]))
+        fails.append(("C10.report.row_within_time_point", observed, exp_rows))
     return fails, ambiguous
 
 
